@@ -1,0 +1,68 @@
+//go:build verif
+
+// Contracts for the govc deductive verifier (see /verif/DESIGN.md). This file
+// contains comments only and is compiled only with the build tag "verif".
+// Every line starting with "//@" is a contract clause, keyed by function name
+// and loop ordinal, never by line number.
+
+package service
+
+// ---------------------------------------------------------------------------
+// Replay cache (C07, C18, C19)
+// ---------------------------------------------------------------------------
+
+//@ inline-extern binary.(bigEndian).Uint32
+
+// Ghost history of a cache: `now` = number of handshakes checked while the
+// history was enabled, last[h] = index of the most recent check of hash h
+// (-1: never), r1/r2 = indices of the last two rotations, capHist[t] = history
+// size in force at check t.
+//@ ghost field ReplayCache.now int
+//@ ghost field ReplayCache.last map[uint32]int
+//@ ghost field ReplayCache.r1 int
+//@ ghost field ReplayCache.r2 int
+//@ ghost field ReplayCache.capHist map[int]int
+
+//@ guarded ReplayCache.{capacity,active,archive,now,last,r1,r2,capHist} by ReplayCache.mutex
+
+//@ pred rcInv(c *ReplayCache) := c.active != nil \
+//@    && 0 <= c.r2 && c.r2 <= c.r1 && c.r1 <= c.now \
+//@    && (forall h uint32 :: c.last[h] < c.now && c.last[h] >= -1) \
+//@    && (forall h uint32 :: c.last[h] >= c.r1 && c.last[h] >= 0 ==> has(c.active, h)) \
+//@    && (forall h uint32 :: c.last[h] >= c.r2 && c.last[h] >= 0 ==> has(c.active, h) || has(c.archive, h)) \
+//@    && (forall h uint32 :: has(c.active, h) || has(c.archive, h) ==> c.last[h] >= 0) \
+//@    && len(c.active) <= c.now - c.r1 \
+//@    && ((c.r1 == 0 && c.r2 == 0) || (c.r1 < c.now && c.r1 - c.r2 >= c.capHist[c.r1]))
+
+//@ lockinv[C07] ReplayCache.mutex(c) := rcInv(c)
+
+//@ func preHash
+//@   props C07 C18
+//@   pure
+
+// Add(id, salt): a handshake whose hash was checked at index L, with every
+// history size in force since then at least now-L (i.e. it is among the most
+// recent N checks), is refused. Conversely a refusal means the hash was seen.
+//@ func (*ReplayCache).Add
+//@   props C07 C18 C19
+//@   atomic
+//@   ghost-at-unlock c.capHist[atlock(c.now)] := ite(atlock(c.capacity) != 0, atlock(c.capacity), atlock(c.capHist[c.now])) ; \
+//@       c.last[preHash(id, salt)] := ite(atlock(c.capacity) != 0, atlock(c.now), atlock(c.last[preHash(id, salt)])) ; \
+//@       c.r2 := ite(c.active != atlock(c.active), atlock(c.r1), atlock(c.r2)) ; \
+//@       c.r1 := ite(c.active != atlock(c.active), atlock(c.now), atlock(c.r1)) ; \
+//@       c.now := ite(atlock(c.capacity) != 0, atlock(c.now) + 1, atlock(c.now))
+//@   ensures[C07,recent-refused] c != nil && atlock(c.capacity) != 0 && atlock(c.last[preHash(id, salt)]) >= 0 \
+//@       && (forall t int :: atlock(c.last[preHash(id, salt)]) < t && t < atlock(c.now) ==> atlock(c.capHist[t]) >= atlock(c.now) - atlock(c.last[preHash(id, salt)])) \
+//@       ==> result == false
+//@   ensures[C07,refused-only-if-seen] c != nil && result == false ==> atlock(c.last[preHash(id, salt)]) >= 0
+//@   ensures[C07,disabled-accepts] c == nil ==> result == true
+
+//@ func (*ReplayCache).Resize
+//@   props C07 C18 C19
+//@   atomic
+//@   requires c != nil
+
+//@ func NewReplayCache
+//@   props C07 C18
+//@   requires capacity <= MaxCapacity
+//@   ensures result.capacity == capacity && result.active != nil && len(result.active) == 0 && result.archive == nil
